@@ -315,6 +315,13 @@ inductive Op
   | flush (k : FlushKind)
   /-- Close: flush, deferred blooms, footer (which may fail) -/
   | close (k : FlushKind) (footerOk : Bool) (offset : Nat)
+  /-- Close on a writer that has not written its file header yet, and the header write fails:
+  `(*Writer).Close` (writer.go 472-482) first closes every column writer (`(*ColumnWriter).Close`,
+  writer.go 2433-2442: the buffered rows become a page in the column's page buffer — any new volatile
+  state per column, a dictionary fallback included), then `(*writer).close` begins with
+  `w.writeFileHeader()` (writer.go 1260-1263) BEFORE the flush and returns its error: no row group
+  reset runs, the recorded pages stay in the writer; the sink offset moves by what the sink took -/
+  | closeHeaderFailed (effs : List ColVol) (offset : Nat)
   | setKV (key value : Str)
   /-- SortingWriter: a buffered chunk is sorted, de-duplicated and written to the temporary
   writer; `last` is the chunk's last row -/
@@ -395,6 +402,7 @@ def step (M : Mirror) (s : Writer) : Op → Writer
   | .write rows effs => { s with cols := applyEffects s.cols effs, numRows := rows }
   | .flush k => flushStep M s k
   | .close k ok off => closeStep M s k ok off
+  | .closeHeaderFailed effs off => { s with cols := applyEffects s.cols effs, offset := off }
   | .setKV k v => { s with metadata := setKV k v s.metadata }
   | .sortChunk last => { s with dedupeLastRow := M.dedupeAfterChunk last }
   | .reset => resetWith M s
@@ -701,6 +709,7 @@ theorem stableOf_step (M : Mirror) (hM : M.Good) (s : Writer) (op : Op)
   | write rows effs => simp [step, stableOf, applyEffects_st]
   | flush k => exact stableOf_flushStep M hM s k
   | close k ok off => exact stableOf_closeStep M hM s k ok off
+  | closeHeaderFailed effs off => simp [step, stableOf, applyEffects_st]
   | setKV k v => rfl
   | sortChunk last => rfl
   | reset => simp [step, resetWith, stableOf, hheap rfl, map_colReset_st M hM]
@@ -710,6 +719,7 @@ theorem allOK_step (M : Mirror) (hM : M.Good) (s : Writer) (op : Op) (h : AllOK 
   | write rows effs => exact applyEffects_ok s.cols effs h
   | flush k => exact allOK_flushStep M hM s k h
   | close k ok off => exact allOK_closeStep M hM s k ok off h
+  | closeHeaderFailed effs off => exact applyEffects_ok s.cols effs h
   | setKV k v => exact h
   | sortChunk last => exact h
   | reset => exact map_colReset_ok M hM s.cols h
@@ -764,6 +774,7 @@ theorem rowGroups_step_noCommit (M : Mirror) (s : Writer) (op : Op) (hc : op.com
       · simpa [hf] using h
       · split <;> simpa [hf] using h
     | committed off' defs snap => simp [Op.commits] at hc
+  | closeHeaderFailed effs off => exact h
   | setKV k v => exact h
   | sortChunk last => exact h
   | reset => rfl
@@ -798,6 +809,7 @@ theorem dedupe_step (M : Mirror) (hM : M.Good) (s : Writer) (op : Op) (h : s.ded
   | close k ok off =>
     simp only [step, closeStep, flushStep]
     split <;> split <;> (try split) <;> (try cases k) <;> exact h
+  | closeHeaderFailed effs off => exact h
   | setKV k v => exact h
   | sortChunk last => exact hM.dedupe last
   | reset => exact h
@@ -821,6 +833,7 @@ theorem metadata_step (M : Mirror) (s : Writer) (op : Op) (h : Op.isSetKV op = f
   | close k ok off =>
     simp only [step, closeStep, flushStep]
     split <;> split <;> (try split) <;> (try cases k) <;> rfl
+  | closeHeaderFailed effs off => rfl
   | setKV k v => simp [Op.isSetKV] at h
   | sortChunk last => rfl
   | reset => rfl
